@@ -88,9 +88,9 @@ fn check_getters(g: &G, r: &RefGraph) {
 }
 
 /// One operation from the catalogue on one pre-state; 8 policy combinations symbolic.
-fn c01_step(directed: bool, multi: bool, pre: u8, op: u8, dd: u8, mm: u8) {
+fn c01_step(directed: bool, multi: bool, pre: u8, op: u8, dd: u8, mm: u8, sl: u8) {
     let (mut g, mut expect, has_loop) = build_pre(directed, multi, pre);
-    let specs = any_specs_kind_dd_mm(directed, multi, dd, mm);
+    let specs = any_specs_kind_dd_mm_sl(directed, multi, dd, mm, sl);
     assume(specs.self_loops || !has_loop);
     g.specs = specs.clone();
     let (a, b);
@@ -122,6 +122,7 @@ fn c01_step(directed: bool, multi: bool, pre: u8, op: u8, dd: u8, mm: u8) {
         let res = g.add_edge_tuple(Nm(2), Nm(0));
         let got = outcome_of(&res);
         vcover!(got == Outcome::Ok, "op accepted");
+        vcover!(got != Outcome::Ok, "op rejected");
         vassert!(got == want, "outcome kind");
         core::mem::forget(res);
     }
